@@ -30,6 +30,10 @@ class Include:
             out.append({"id": "middle/%s" % p, "k": "middle", "p": p, "bounded": "%s with the middle third included" % p})
         for shape in ("adjacent", "apart", "nested-twice"):
             out.append({"id": "same-file-twice/%s" % shape, "k": "twice", "shape": shape, "bounded": "one file included twice (%s)" % shape})
+        for body in ("nothing", "comments", "blanks"):
+            for shape in ("then-include", "then-statement", "last", "first", "nested-then-include", "two-empty-then-include"):
+                out.append({"id": "empty-include/%s/%s" % (body, shape), "k": "empty", "body": body, "shape": shape,
+                            "bounded": "an include file with no statements (%s), %s" % (body, shape)})
         out.append({"id": "missing-file", "k": "missing"})
         out.append({"id": "cycle/self", "k": "cycle", "shape": "self"})
         out.append({"id": "cycle/two", "k": "cycle", "shape": "two"})
@@ -99,6 +103,39 @@ class Include:
             return out
         self._cmp(env, cell, main, fs, splice(main), native, "same-file-twice/%s" % shape)
 
+    def k_empty(self, env, cell, native):
+        """an included file that contributes no statement at all: the statement after it must be treated like any other"""
+        empty = {"nothing": [], "comments": ["; only a comment\n", "   ; and an indented one\n"], "blanks": ["\n", "   \n"]}[cell["body"]]
+        body = ["TABLE   FCB 1,2,3\n", "FILL    RMB 2\n"]
+        head = ["        ORG $0E00\n", "START   LDX #COUNT\n", "        LDA ,X\n"]
+        tail = ["DONE    BNE START\n", "        RTS\n", "COUNT   FCB 7\n"]
+        inc_e, inc_b = "        INCLUDE e.asm\n", "        INCLUDE body.asm\n"
+        fs = {"e.asm": empty, "body.asm": body}
+        shape = cell["shape"]
+        if shape == "then-include":
+            main = head + [inc_e, inc_b] + tail
+        elif shape == "then-statement":
+            main = head + [inc_e] + tail
+        elif shape == "last":
+            main = head + [inc_b] + tail + [inc_e]
+        elif shape == "first":
+            main = [inc_e] + head + [inc_b] + tail
+        elif shape == "two-empty-then-include":
+            main = head + [inc_e, inc_e, inc_b, inc_e] + tail
+        else:
+            main = head + ["        INCLUDE outer.asm\n"] + tail
+            fs["outer.asm"] = [inc_e, inc_b, inc_e, "        NOP\n"]
+
+        def splice(lines):
+            out = []
+            for l in lines:
+                if "INCLUDE" in l:
+                    out += splice(fs[l.split()[1]])
+                else:
+                    out.append(l)
+            return out
+        self._cmp(env, cell, main, fs, splice(main), native, "empty-include/%s/%s" % (cell["body"], shape))
+
     def k_missing(self, env, cell, native):
         r = assemble(env, [" NOP\n", " INCLUDE nothere.asm\n"], fs={"other.asm": [" NOP\n"]})
         env.ensure("C19:missing-file-is-diagnostic", r.status == "diag", ("C19", "C13"),
@@ -155,7 +192,7 @@ class IncludeContracts:
             # native witness search: the bounded include cells of this module (same-file-twice, nested, middle, split)
             inc = Include()
             for c in inc.cells("quick"):
-                if c["k"] in ("twice", "nested", "middle"):
+                if c["k"] in ("twice", "nested", "middle", "empty"):
                     inc.run(env, c)
             # parse must drop blank and comment-only lines and nothing else, in the main file and in included files
             plain = ["        ORG $0E00\n", "A       LDA #1\n", "        BRA A\n", "B       RTS\n"]
@@ -192,6 +229,7 @@ class IncludeContracts:
 
         def kept(k):
             return z3.And(z3.Not(E(k)), z3.Not(Cm(k)))
+        acc = _returned_name(it.getattr_(Program, "parse"), "statements")
 
         def init(ctx):
             p.assume(FP(0) == z3.Empty(IntSeq))
@@ -199,11 +237,15 @@ class IncludeContracts:
 
         def havoc(ctx):
             p.fresh += 1
-            ctx.locals["statements"] = SeqList(z3.Const("stmts!%d" % p.fresh, IntSeq))
+            if acc not in ctx.locals:
+                raise sym.Undecided("parse: the returned accumulator %r does not exist before the loop" % acc)
+            ctx.locals[acc] = SeqList(z3.Const("stmts!%d" % p.fresh, IntSeq))
             return {}
 
         def inv(ctx, i, g):
-            s = ctx.locals["statements"]
+            s = ctx.locals.get(acc)
+            if not isinstance(s, (SeqList, list)):
+                return [("fold", mk(z3.BoolVal(False)))]
             seq = s.seq if isinstance(s, SeqList) else SeqList.of([sym._z(x.fields["_id"]) for x in s]).seq
             return [("fold", mk(seq == FP(sym._z(i))))]
 
@@ -275,6 +317,7 @@ class IncludeContracts:
                 raise sym.EngineError("nested process_mnemonics on a non-abstract list")
             return SeqList(FLAT(s.seq))
         v.contract(key, CallSpec(apply_rec, nested_only=True))
+        acc = _returned_name(it.getattr_(Program, "process_mnemonics"), "processed_statements")
 
         def init(ctx):
             p.assume(G(0) == z3.Empty(IntSeq))
@@ -282,12 +325,21 @@ class IncludeContracts:
 
         def havoc(ctx):
             p.fresh += 1
-            ctx.locals["processed_statements"] = SeqList(z3.Const("proc!%d" % p.fresh, IntSeq))
+            if acc not in ctx.locals:
+                raise sym.Undecided("process_mnemonics: the returned accumulator %r does not exist before the loop" % acc)
+            ctx.locals[acc] = SeqList(z3.Const("proc!%d" % p.fresh, IntSeq))
             return {}
 
         def inv(ctx, i, g):
-            s = ctx.locals["processed_statements"]
-            seq = s.seq if isinstance(s, SeqList) else z3.Empty(IntSeq)
+            s = ctx.locals.get(acc)
+            if isinstance(s, SeqList):
+                seq = s.seq
+            elif isinstance(s, list) and not s:
+                seq = z3.Empty(IntSeq)
+            else:
+                # the accumulator is not a fresh list (for instance the input list itself, modified in place): the fold
+                # invariant cannot hold for it
+                return [("fold", mk(z3.BoolVal(False)))]
             return [("fold", mk(seq == G(sym._z(i))))]
 
         def step(ctx, i, g):
@@ -304,6 +356,15 @@ class IncludeContracts:
             env.ensure(key + "::post:in-place-expansion-fold", mk(res.seq == G(sym._z(n))), ("C19",), internal="contract over abstract statements")
         else:
             env.ensure(key + "::post:in-place-expansion-fold", And(n == 0, len(res) == 0), ("C19",), internal="contract over abstract statements")
+
+
+def _returned_name(func, default):
+    """the local the function returns (the invariant is about the returned list, whatever the code calls it)"""
+    import ast
+    f = getattr(func, "func", func)
+    node = getattr(f, "node", None)
+    names = [r.value.id for r in ast.walk(node) if isinstance(r, ast.Return) and isinstance(r.value, ast.Name)] if node is not None else []
+    return names[-1] if names else default
 
 
 class _FileName(str):
